@@ -49,6 +49,23 @@ theorem C18_lock_fin_flags :
     (Gen.LockC18.accesses.any (fun a => a.1 == "Stream.HandleRemoteFinWrite" && a.2.1 == "remoteFinWrite" && a.2.2.1)) = true := by
   decide
 
+
+def regionsOf (m item : String) : List Nat :=
+  (Gen.LockC18.regions.filter (fun r => r.1 == m && r.2.1 == item)).map (·.2.2)
+
+/-- The state a transition is computed from is read in the SAME critical section in which the new
+    state is written (`finState` and `CloseWrite` are read-modify-write steps of the model): in
+    `HandleRemoteFinWrite` and in `CloseWrite` the `State()` call and the `SetState()` call lie in one
+    and the same lock region.  (A variant that reads the state in an earlier region and writes it in a
+    later one — both under the lock — passes `C18_lock_state_transitions` but not this.) -/
+def sameOneRegion (m a b : String) : Bool :=
+  regionsOf m a == regionsOf m b && (regionsOf m a).length == 1 && (regionsOf m a).all (· != 0)
+
+theorem C18_lock_state_rmw_one_region :
+    sameOneRegion "Stream.HandleRemoteFinWrite" "call:State" "call:SetState" = true ∧
+    sameOneRegion "Stream.CloseWrite" "call:State" "call:SetState" = true ∧
+    sameOneRegion "Stream.CloseWrite" "localFinWrite:w" "call:SetState" = true := by decide
+
 /-- `CloseWrite` is a single critical section (one lock acquisition). -/
 theorem C18_lock_closewrite_once : Gen.LockC18.acquisitions.lookup "Stream.CloseWrite" = some 1 := by decide
 
